@@ -1,5 +1,6 @@
 import Req.Lemmas.C06Recv
 import Req.Lemmas.C06Acks
+import Req.Lemmas.C06Credit
 /-!
 C06 — HTTP/2 connections respect everything the peer advertised: property theorems.
 
@@ -141,6 +142,61 @@ theorem inflow_nonneg (cfg : Cfg) (hfix : cfg.fixes = Fixes.all) (hcfg : cfg.ok)
   obtain ⟨m, r, _, _, _, h4⟩ := joint_runFrom ops hops (preface_run cfg) (rpreface_run cfg hfix hcfg)
     (sinv_init cfg hfix) (rinv_init cfg hfix hcfg)
   exact ⟨h4.connOK.avail, h4.connOK.unsent, h4.connOK.sum⟩
+
+/-! ### credit -/
+
+/-- **credit_conservation**: in every reachable state (unless the model has stopped at a Go
+`panic`, which `inflow.add` reserves for an overflowing window) every byte of receive window the
+client ever advertised is in exactly one place —
+connection level: `avail + unsent + Σ buffered = int32(connFlow) + 65535`;
+per stream whose body has not been closed: `avail + unsent + buffered = the stream's initial window` —
+and nothing is held back (`unsent`) unless it is below `inflowMinRefresh` and below what the peer
+still has. DATA for cancelled, reset and closed streams and all padding is refunded at once. -/
+theorem credit_conservation (cfg : Cfg) (hfix : cfg.fixes = Fixes.all) (ops : List Op) (hops : ∀ op ∈ ops, op.ok) :
+    let st := (run cfg ops).1
+    st.panicked = true ∨
+    (st.connIn.avail + st.connIn.unsent + sumBuffered st.streams = connInflowInit cfg.connFlow ∧
+     Fresh st.connIn ∧
+     ∀ s ∈ st.streams, Fresh s.inflow ∧
+       (s.broken = false → s.inflow.avail + s.inflow.unsent + s.buffered = streamInflow0 cfg)) := by
+  have hrun : run cfg ops = runFrom (newConn cfg).1 ((newConn cfg).2.map Event.c) ops := rfl
+  rw [hrun]
+  have := k_runFrom (T := connInflowInit cfg.connFlow) (S := streamInflow0 cfg) ops hops (preface_run cfg)
+    (sinv_init cfg hfix) (Or.inr (cinv_init cfg))
+  rcases this with ⟨h1, _⟩ | h
+  · exact Or.inl h1
+  · exact Or.inr ⟨h.conn, h.connFresh, fun s hs => ⟨h.strmFresh s hs, h.strm s hs⟩⟩
+
+/-- **no_permanent_stall**: once the caller has consumed (read or closed) everything, the peer
+has connection-level window: more than half of what was advertised — it is never left waiting
+for credit that the client is sitting on. The same holds per stream. -/
+theorem no_permanent_stall (cfg : Cfg) (hfix : cfg.fixes = Fixes.all) (ops : List Op) (hops : ∀ op ∈ ops, op.ok)
+    (hp : (run cfg ops).1.panicked = false) (hz : sumBuffered (run cfg ops).1.streams = 0) :
+    connInflowInit cfg.connFlow < 2 * (run cfg ops).1.connIn.avail ∨
+    (run cfg ops).1.connIn.avail = connInflowInit cfg.connFlow := by
+  rcases credit_conservation cfg hfix ops hops with h | ⟨h1, h2, _⟩
+  · rw [hp] at h; cases h
+  · rw [hz] at h1
+    rcases h2 with h0 | ⟨_, hlt⟩
+    · right; omega
+    · left; omega
+
+theorem no_permanent_stall_stream (cfg : Cfg) (hfix : cfg.fixes = Fixes.all) (ops : List Op)
+    (hops : ∀ op ∈ ops, op.ok) (hp : (run cfg ops).1.panicked = false)
+    (s : Stream) (hs : s ∈ (run cfg ops).1.streams) (hb : s.broken = false) (hz : s.buffered = 0) :
+    streamInflow0 cfg < 2 * s.inflow.avail ∨ s.inflow.avail = streamInflow0 cfg := by
+  rcases credit_conservation cfg hfix ops hops with h | ⟨_, _, h3⟩
+  · rw [hp] at h; cases h
+  · obtain ⟨hf, hc⟩ := h3 s hs
+    have hc' := hc hb
+    rw [hz] at hc'
+    rcases hf with h0 | ⟨_, hlt⟩
+    · right; omega
+    · left; omega
+
+/-- the download of `exampleOps`: 5010 bytes taken from both windows, 5000 buffered, then read -/
+example : (run exampleCfg exampleOps).1.connIn = ⟨1073807359, 0⟩ := by decide
+example : sumBuffered (run exampleCfg exampleOps).1.streams = 0 := by decide
 
 /-! ### the unchanged code: one counter-example per repair (replayed on the implementation by the
 directed scripts of the script lane) -/
